@@ -213,17 +213,40 @@ class Generator:
             shp = rnp.broadcast_shapes(shp, s)
         return shp
 
-    def _arr(self, kind, shape, sort='R', info=None, defs=None):
+    def _arr(self, kind, shape, sort='R', info=None, defs=None, param=None):
         call = self.calls
         self.calls += 1
         out = rnp.empty(shape, dtype=object)
         for idx in rnp.ndindex(*shape):
             out[idx] = draw(kind, self.seed, call, idx, sort, info, defs)
+            if call == 0:
+                self._set_ev(out[idx], kind, shape, idx, param)
         if shape == ():
             return out[()]
         r = out.view(arrays.SArr)
         r.ldtype = 'int' if sort == 'I' else 'float'
         return r
+
+    def _set_ev(self, snum, kind, shape, idx, param):
+        """numeric value of a first-call draw for translator validation: the real numpy generator with the same seed"""
+        (m, c), = snum.p.t.items()
+        var = core.VARS[m[0][0]]
+        seed = self.seed
+
+        def ev(env, kind=kind, shape=shape, idx=idx, param=param, seed=seed):
+            sv = int(round(core.evalf(seed, env))) if isinstance(seed, core.SNum) else seed
+            g = rnp.random.default_rng(sv)
+            if kind == 'normal':
+                return float(g.standard_normal(shape)[idx] if shape else g.standard_normal())
+            if kind == 'poisson':
+                lam = rnp.array([float(core.evalf(v, env)) for v in (param.flat if hasattr(param, 'flat') else [param])]).reshape(shape)
+                r = g.poisson(lam)
+                return int(r[idx] if shape else r)
+            if kind == 'uniform':
+                return float(g.uniform(size=shape)[idx] if shape else g.uniform())
+            raise KeyError(kind)
+        if kind in ('normal', 'poisson', 'uniform') and not isinstance(seed, tuple):
+            var.ev = ev
 
     def standard_normal(self, size=None):
         return self._arr('normal', self._shape(size))
@@ -244,7 +267,7 @@ class Generator:
             big = arrays.e_or(big, arrays._cmp('gt')(v, 9.223372006484771e+18))
         if big is True or (big is not False and bool(big)):
             raise ValueError('lam value too large')
-        return self._arr('poisson', self._shape(size, lam), 'I', {'nonneg': True}, lambda z: [z >= 0])
+        return self._arr('poisson', self._shape(size, lam), 'I', {'nonneg': True}, lambda z: [z >= 0], param=L)
 
     def lognormal(self, mean=0.0, sigma=1.0, size=None):
         return self._arr('lognormal', self._shape(size, mean, sigma), 'R', {'pos': True}, lambda z: [z > 0])
